@@ -87,7 +87,7 @@ PROPS = {
         assumptions=['trajectory time index strictly increasing (input precondition)']),
     'C06': dict(
         rules=[meas.meas_guard, meas.meas_dep, meas.meas_shape, meas.meas_cols,
-               meas.meas_jacobian, meas.meas_noise,
+               meas.meas_jacobian, meas.meas_noise, meas.meas_sim,
                lambda c: purity.pur_global(c, ('measurements', 'error_model', 'transform',
                                                'earth', 'util'))],
         decided=['no function on the measurement path keeps state in a module/class-level array '
@@ -96,10 +96,13 @@ PROPS = {
                  'every attribute the residual depends on reaches H (lever arm), under the same '
                  'condition', 'matching dimensions of z, H, R in both altitude modes',
                  'residual is predicted minus measured', 'simulator/constructor column agreement',
+                 'simulator composed with the model: residual at the true state is minus the '
+                 'injected error (first order for position, exact for velocities)',
                  'H is entry-wise the derivative of the residual with respect to the error state '
                  'under correct_pva (symbolic, first order; all classes, both altitude modes, with '
                  'and without lever arm / rates)'],
-        undecided=['numerical zero residual at the true state with simulated data',
+        undecided=['floating-point size of the residual at the true state with simulated data '
+                   '(that it is zero / minus the injected error to first order is decided: MEAS-SIM)',
                    'second-order (lever/Earth-radius) terms of the position Jacobian']),
     'C02': dict(
         rules=[kernel.row_rec, integrator.buf_rules, integrator.carrier, integrator.carrier_sync,
